@@ -42,9 +42,19 @@ CHECKS = {
    text='SetVssPath/SetVssData/CalcVssPathLength for all 24 datatypes x both address modes: (F) symbolic path length 0..6 and value length 0..16 bytes in whole elements (thorough: 16 / 64), symbolic path/value bytes (floats as raw bit patterns), all prior contents - whole object incl. guard bytes compared with the reference encoding; (E) every concrete (path length, element count) pair in the bound with message, path source and value source of exact extent; reserved address modes x every datatype and every reserved datatype code: object must equal its snapshot. LE+BE.'),
  'C08': dict(cat='model_checking', ref='3/C08', tech=BMC + ' with a reference encoder written from acf-vss.md',
    text='GetVssPath/GetVssData/CalcVssPathLength on messages produced by the reference encoder (F, symbolic lengths) and by the library encoder shown equal to the reference (E, exact extent): decoded path/value equal the originals bit for bit, the length query (NULL destination) writes only the length, nothing beyond the reported length is written into exact-extent destinations, the message is never modified and never over-read. Same bounds as C07. LE+BE.'),
+
+ 'C14': dict(cat='model_checking', ref='3/C14', tech=BMC + ' in the big-endian configuration (goto-cc --big-endian + big-endian preprocessor branch)',
+   text='Every harness family of C01-C10, C12, C13, C17 is decided again in the big-endian configuration with the same byte-level oracle assertions (quick: all BE queries of the per-property checks plus BE twins of a sample of the LE-only queries; thorough: a BE twin of every query); two mixed-configuration sanity twins must fail. Equality of LE and BE wire bytes/values follows by transitivity through the byte-defined oracle.',
+   note=NOTE + ' A big-endian counterexample cannot run natively and is re-executed with concrete inputs under CBMC\'s big-endian model.'),
+ 'C15': dict(cat='model_checking', ref='3/C15', tech='BMC with the PDU at every byte offset 1..7 + SMT (z3, cvc5) alignment queries over clang LLVM IR at -O0..-O3',
+   text='Half 1: accessor, builder and codec harnesses with the PDU placed at each byte offset 1..7 inside a larger object must discharge the same oracle assertions (values and bytes independent of placement). Half 2: for every library TU and -O0(mem2reg)/-O1/-O2/-O3 every load/store/memcpy operand with alignment > 1 becomes one bit-vector query (root = 0 mod promised ABI alignment, free GEP indices, is addr mod k != 0 satisfiable?), decided by z3 and cross-checked by cvc5; a satisfiable query is replayed natively under -fsanitize=alignment with the PDU at the model residue.',
+   note='Trusted: clang-14 IR generation, own IR text parser, z3+cvc5 agreeing; promised alignment = x86-64 ABI alignment of the pointee type; equal results across optimisation levels rest on the compiler preserving defined behaviour given the absence of UB (CBMC checks + this alignment check). 15 classes of typed accesses in Vss.c are recorded known findings.'),
+ 'C16': dict(cat='other', ref='3/C16', tech='symbol-table inventory + BMC frame check under --nondet-static + composition argument (no schedule exploration)',
+   text='Per-function symbolic proof + composition argument, NOT an exploration of interleavings (CBMC refuses pointer-based concurrency). (a) every static-lifetime object of every library goto binary must be const; only memcpy/memset are called externally; (b) every accessor/initialiser/builder/codec harness is decided again with an arbitrary pre-state of all mutable statics (--nondet-static): oracle assertions and pointer checks must hold; (c) functions whose footprint is their arguments plus immutable tables are race-free on distinct arguments. A mutable static is replayed on two threads under ThreadSanitizer.',
+   note='Trusted: goto-instrument symbol table; the composition argument (stated in DESIGN.md); TSan for replays. Level "other": the schedule quantifier is discharged by argument over solver-checked footprints.'),
 }
 NA = {}
-for i in (14,15,16,18,19,20):
+for i in (18,19,20):
     NA['C%02d' % i] = 'check not built yet in this round (see DESIGN.md section 3 for the plan)'
 
 def main():
